@@ -2,6 +2,7 @@ use crate::common::{Tier, Violation};
 use serde_json::Value;
 
 pub mod c06;
+pub mod c10;
 pub mod c19;
 pub mod c05;
 pub mod c02;
@@ -12,6 +13,7 @@ pub mod c17;
 pub fn run(id: &str, tier: Tier) -> i32 {
     match id {
         "C06" => c06::run(tier),
+        "C10" => c10::run(tier),
         "C19" => c19::run(tier),
         "C05" => c05::run(tier),
         "C02" => c02::run(tier),
@@ -30,6 +32,7 @@ pub fn replay(id: &str, v: &Value) -> i32 {
     let case = &v["case"];
     let f: fn(&Value) -> Option<Violation> = match id {
         "C06" => c06::replay_case,
+        "C10" => c10::replay_case,
         "C19" => c19::replay_case,
         "C05" => c05::replay_case,
         "C02" => c02::replay_case,
